@@ -14,7 +14,10 @@ import random
 
 from ..core import Ctx, digest
 from ..forkpool import prepare_imports, run_cases
-from ..lattice import ORIGIN0
+from ..lattice import ORIGIN0 as _O0
+
+# seven origin-0 embeddings plus two magnitudes: 1e-6 and 1e9 units (absolute tolerances and slacks show there)
+ORIGIN0 = _O0 + ["micro", "huge"]
 from .. import tlc
 from .die_common import metric_regs, die_size, run_die_case, random_description
 
